@@ -388,6 +388,9 @@ class Ctx:
         m = re.search(r"Error: Invariant (\S+) is violated", res.out)
         if m:
             res.violated = m.group(1)
+        m = re.search(r"Error: Postcondition (\S+)", res.out)
+        if m and not res.violated:
+            res.violated = m.group(1)
         m2 = re.search(r"Error: Action property (\S+) is violated", res.out) or re.search(r"Error: Temporal properties were violated", res.out)
         if m2 and not res.violated:
             res.violated = m2.group(1) if m2.groups() else "temporal"
@@ -411,6 +414,67 @@ class Ctx:
         if expect == "violation" and not res.violated:
             raise Infra("TLC %s/%s expected to refute an invariant (anti-vacuity what-if): %r\n%s" % (module, cfgname, res, res.out[-3000:]))
         return res
+
+    # ---- trace validation ------------------------------------------------------------
+    def validate_trace(self, module, trace_path, split_ev=None, chunks=8, prefix=None, timeout=900, cfg=None, env=None):
+        """Validate an NDJSON trace against spec/<module>.tla (acceptance by post-condition).
+
+        Long traces are partitioned at quiescent points (events named split_ev; each chunk is
+        prefixed with the `prefix` events, normally a Reset) and the chunks are validated by
+        parallel TLC processes. Returns (accepted, first_rejected_line or None, states_total).
+        The rejected line is the 1-based line of the ORIGINAL trace file.
+        """
+        import concurrent.futures
+        lines = open(trace_path).read().splitlines()
+        n = len(lines)
+        bounds = [0]
+        if split_ev and chunks > 1 and n > 4000:
+            target = n // chunks + 1
+            nxt = target
+            tag = '"ev":"%s"' % split_ev
+            for i, ln in enumerate(lines):
+                if i >= nxt and tag in ln:
+                    bounds.append(i)
+                    nxt = i + target
+        bounds.append(n)
+        jobs = []
+        for k in range(len(bounds) - 1):
+            a, b = bounds[k], bounds[k + 1]
+            pre = [json.dumps(e) for e in (prefix or [])] if k > 0 else []
+            cp = os.path.join(self._spec(), "chunk_%d_%d.ndjson" % (len(self.tlc_runs), k))
+            with open(cp, "w") as f:
+                f.write("\n".join(pre + lines[a:b]) + "\n")
+            jobs.append((k, a, len(pre), b - a, cp))
+
+        def one(job):
+            k, a, npre, cnt, cp = job
+            e = {"TRACE": os.path.basename(cp)}
+            if env:
+                e.update(env)
+            r = self.tlc(module, cfg=cfg or (module + ".cfg"), workers=1, timeout=timeout, env=e, deadlock=True, heap="3g")
+            return job, r
+
+        results = []
+        with concurrent.futures.ThreadPoolExecutor(max_workers=min(8, len(jobs))) as ex:
+            for job, r in ex.map(one, jobs):
+                results.append((job, r))
+        total = 0
+        first_bad = None
+        for (k, a, npre, cnt, cp), r in sorted(results, key=lambda x: x[0][0]):
+            total += r.distinct
+            if r.ok:
+                continue
+            if r.violated:
+                # states = initial + matched lines; the line after the matched prefix is the rejected one
+                local = r.distinct  # 1-based local line that failed to match (or violated an invariant)
+                if r.violated != "Accepted":
+                    local = max(1, r.distinct - 1)
+                line = a + (local - npre)
+                if first_bad is None or line < first_bad:
+                    first_bad = line
+            else:
+                raise Infra("trace validation could not run: %r\n%s" % (r, r.out[-3000:]))
+        return first_bad is None, first_bad, total
 
     def spec_path(self, name):
         return os.path.join(self._spec(), name)
